@@ -213,6 +213,24 @@ def run_unit(unit, ctx):
         got = monitors.vec_dict(res)
         _compare(R, got, ref, f"compiled:{tag}", p)
         R.stats.inc(f"compiled_points_checked_{tag}")
+        if pi % 10 == 3 and not use_array:
+            # the same State and Control objects again, after a new IMU sample and orientation were
+            # written into their buffers in place
+            p2, _, _ = gen_point(rng, names)
+            for s in cal_syms:
+                p2[s.name] = p0[s.name]
+            p2["dt"] = p["dt"]
+            for i_, n_ in enumerate(monitors.names_of(st)):
+                st.data[i_, 0] = p2[n_]
+            for i_, n_ in enumerate(monitors.names_of(ct)):
+                ct.data[i_, 0] = p2[n_]
+            try:
+                res2 = model.model(float(p2["dt"]), st, ct)
+                _compare(R, monitors.vec_dict(res2), reference(p2), f"compiled:{tag}", p2)
+                R.stats.inc("reused_input_objects_written_in_place")
+                R.evals += 1
+            except Exception as e:  # noqa: BLE001
+                R.add([K.V(K.exc_key("model", e), f"compiled strapdown model raised with reused inputs ({tag}): {K.exc_text(e)}", point=p2, traceback=K.tb_text(e))])
         R.evals += 1
         fp = gen.fingerprint(p)
         R.fps_all.append(fp)
